@@ -406,6 +406,8 @@ package websocket
 //@ tags C08 C03
 //@ ensures [init] result != nil && gvcFresh(result) && result.c == c && result.fin && result.payloadLength == 0 && !result.flate
 //@ ensures [default-limit] result.limitReader != nil && result.limitReader.c == c && result.limitReader.n == specArmedLimit(specDefaultReadLimit) && ghi64(&result.limitReader.limit).val == specArmedLimit(specDefaultReadLimit)
+//@ ensures [ghost-owner] {assume} result.readFunc != nil && ghconn(io.Reader(result.readFunc)) == c && result.limitReader.r != nil && ghconn(result.limitReader.r) == c
+//@ note [ghost-owner] defines the ghost relation ghconn (which connection a library-internal reader belongs to) at the point where the reader is created; it is a definition, assumed by callers, not an obligation of the body
 
 // ---------------------------------------------------------------------------
 // close.go (C06, C20, C09, C16)
@@ -798,13 +800,32 @@ package websocket
 //@ ensures [extensions] specValidResponse(opts.Subprotocols, secWebSocketKey, resp) && specExtCount(resp.Header) > 0 ==> ((result1 == nil) == (copts != nil && specExtCount(resp.Header) == 1 && specExtName(resp.Header, 0) == "permessage-deflate" && specRespParamsOK(resp.Header)))
 //@ ensures [no-extensions] specValidResponse(opts.Subprotocols, secWebSocketKey, resp) && specExtCount(resp.Header) == 0 ==> result1 == nil && result0 == nil
 
+//@ func newMu
+//@ inline
+
+//@ func newMsgWriter
+//@ inline
+
+//@ func extractBufioWriterBuf
+//@ assumed the trick that captures the bufio.Writer's internal buffer (Reset onto a capturing writer, one WriteByte, Flush, Reset back) is not modelled: the result is taken to be that buffer - a region of its own, as long as the writer's size - and the writer's stream to be untouched
+//@ ensures [buf] len(result) == ghwr(bw).size && gvcFreshSlice(result)
+
 //@ func newConn
-//@ assumed the constructor (allocations, goroutine start, finalizer) is not under contract; only the role and the negotiated options of the result are used
-//@ ensures result != nil && gvcFresh(result) && result.client == cfg.client && result.copts == cfg.copts && result.subprotocol == cfg.subprotocol
+//@ tags C05 C06 C08
+//@ opt allow-go=the timeout watcher started here is under its own contract ((*Conn).timeoutLoop); its effects are the environment steps of the channel model
+//@ requires cfg.rwc != nil && cfg.br != nil && cfg.bw != nil && ghconn(specRand()) == nil
+//@ requires [fresh-stream] specFreshWriter(cfg.bw)
+//@ ensures [fresh] result != nil && gvcFresh(result) && result.client == cfg.client && result.copts == cfg.copts && result.subprotocol == cfg.subprotocol && result.br == cfg.br && result.bw == cfg.bw && result.rwc == cfg.rwc
+//@ ensures [ghost-owner] {assume} ghconn(result.br) == result && io.Reader(result.br) != specRand()
+//@ note [ghost-owner] defines the ghost relation ghconn for the connection's own bufio.Reader at construction (a definition, assumed); [invariant-established] is proved from it
+//@ ensures [invariant-established] connReady(result)
+//@ ensures [open] !result.closing && !result.closeSent && !result.closeReceived
+//@ ensures [unlocked] {C05} !gvcHeld(result.readMu.ch) && !gvcHeld(result.writeFrameMu.ch) && !gvcHeld(result.msgWriter.mu.ch) && !gvcHeld(result.msgWriter.writeMu.ch)
+//@ ensures [reader-init] {C08 C03} result.msgReader.fin && result.msgReader.payloadLength == 0 && result.msgReader.limitReader.n == specArmedLimit(specDefaultReadLimit)
 
 //@ func accept
 //@ tags C11 C12 C14
-//@ requires w != nil && r != nil && ghresp(w).status == 0 && !ghresp(w).hijacked
+//@ requires w != nil && r != nil && ghresp(w).status == 0 && !ghresp(w).hijacked && ghconn(specRand()) == nil
 //@ modifies ghresp(w).status, ghresp(w).hijacked, mapof(ghhdr(specRespHeader(w)).vals)
 //@ ensures [upgrade-only-valid] {C11} err == nil ==> specValidUpgrade(r)
 //@ ensures [upgrade-only-authorised] {C12} err == nil && !(opts != nil && opts.InsecureSkipVerify) ==> specOriginAuthorised(r, specOriginPatterns(opts))
@@ -840,12 +861,12 @@ package websocket
 //@ assumed pool access
 //@ ensures result != nil
 //@ func getBufioWriter
-//@ assumed pool access
-//@ ensures result != nil
+//@ assumed pool access: a writer reset onto w (its ghost stream starts empty)
+//@ ensures result != nil && specFreshWriter(result)
 
 //@ func dial
 //@ tags C13
-//@ requires ctx != nil && ghconn(specRandSrc(rand)) == nil
+//@ requires ctx != nil && ghconn(specRandSrc(rand)) == nil && ghconn(specRand()) == nil
 //@ modifies ghrd(specRandSrc(rand)).pos
 //@ ensures [no-conn-on-error] err != nil ==> result0 == nil
 //@ ensures [conn-only-if-valid] err == nil ==> result0 != nil && result1 != nil && specValidResponse(specDialSubprotocols(opts), specKeyFrom(specRandSrc(rand), old(ghrd(specRandSrc(rand)).pos)), result1)
